@@ -210,6 +210,48 @@ chk("C18", "model_checking",
     "trace-validated by TLC", "DESIGN.md section 4, C18")
 
 
+PKT_NOTE = ("Packet.tla holds the layouts (pcap record header, Ethernet II, 802.1Q, RFC 791 / 8200 / 9293 / 768) and the "
+            "dispatch rules; scripts reach the packet through pcap_read_next or as current packet ($n); results come back "
+            "through an observation array and the files written. ")
+
+chk("C15", "model_checking",
+    "Structure-aware random frames (Ethernet, 0-2 VLAN tags, QinQ, IPv4 with every IHL and options, IPv6, IPv6-in-IPv4, "
+    "TCP with every data offset, UDP, unknown selectors) truncated at every layer boundary +-1 and inside every header "
+    "(thorough: every byte offset) x random histories of 1-8 reads ($n and named paths, along the structure and astray) "
+    "with writes through pcap_write and write(file, packet), also between reads; filter-mode output end to end. The "
+    "history is validated by TLC (spec/PacketTrace.tla): reads leave the specification state (hdr, raw) unchanged, so "
+    "every write must equal hdr o raw; a crash while reading is a violation.",
+    PKT_NOTE + "Sampled, not exhaustive.",
+    "TLA+ packet specification; recorded read/write histories of the real interpreter trace-validated by TLC",
+    "DESIGN.md section 4, C15")
+
+chk("C16", "model_checking",
+    "Random frames x truncations x random reads, and field tables: 36 scalar fields x (every value up to 8 bits "
+    "[thorough 12], boundary and walking-one/zero patterns otherwise) x all-zero / all-one / alternating surroundings; "
+    "dispatch values around every supported EtherType / protocol / next header for named and $n access; $0..$11 on "
+    "stacks of several depths; record-header values above 2^31 and documented aliases. Every value the script observed "
+    "(integer, boolean, address text via the reference parsers, payload bytes, layer object / null / error object) is "
+    "validated by TLC against spec/Packet.tla.",
+    PKT_NOTE + "Where a payload ends (captured bytes or length field) is accepted either way; $n beyond 10 and header "
+    "lengths below the minimum are unspecified. 16-bit fields are covered by boundary / walking patterns, not all values.",
+    "TLA+ packet layouts evaluated by TLC; recorded reads of the real interpreter trace-validated by TLC",
+    "DESIGN.md section 4, C16")
+
+chk("C17", "model_checking",
+    "Every writable property x in-range values (all values up to 8 bits [thorough 12], boundary / walking bits otherwise) "
+    "x above-range, negative, wrong-kind values, valid and malformed address texts, read-only properties, on four "
+    "layer stacks with options; after each assignment every property of every layer on the path is read and the packet "
+    "written; random histories of 2-4 assignments with reads and writes in between. TLC validates each history "
+    "against the nondeterministic assignment action of spec/PacketTrace.tla: an in-range value patches exactly the "
+    "field's bits of (hdr, raw); an invalid value is refused (runtime error, state unchanged) or stored reduced to the "
+    "field's width; reads and written bytes must then follow from the patched bytes.",
+    PKT_NOTE + "After an assignment to a field that selects the next layer or gives a header length, later reads are "
+    "not compared (cached layers vs. new structure is unsettled); the written bytes still are. Payload of an enclosing "
+    "layer may show the captured or the new bytes.",
+    "TLA+ packet specification with nondeterministic assignment action; recorded histories trace-validated by TLC",
+    "DESIGN.md section 4, C17")
+
+
 def main():
     props = [json.loads(l)["id"] for l in open(os.path.join(VERIF, "properties.jsonl"))]
     na = [{"property_id": p, "reason": NOT_APPLICABLE.get(p, "check not built yet in this round (planned, see DESIGN.md section 8)")}
